@@ -601,7 +601,34 @@ func ruleP06NilRecord(p *Prog, r *Report) {
 					return
 				}
 				n++
-				r.check(p.nilnessAt(c.Block(), c.Common().Value, 0) == nnNonNil, rule, fmt.Sprintf("%s:%s#%d", fnName(f), c.Common().Method.Name(), n), p.instrPos(c), "receiver is a record", "a method is called on a record that may be nil (crash on a text whose headline is rejected)")
+				ok = p.nilnessAt(c.Block(), c.Common().Value, 0) == nnNonNil
+				// the record handed to a local function as an argument: every call of a function
+				// value of that signature inside parse passes a record
+				if par, isPar := strip(c.Common().Value).(*ssa.Parameter); !ok && isPar && f.Parent() != nil {
+					idx := paramIndex(f, par)
+					sites := 0
+					good := idx >= 0
+					for _, g := range withAnons(parse) {
+						eachInstr(g, func(in2 ssa.Instruction) {
+							c2, isCall := in2.(ssa.CallInstruction)
+							if !isCall || c2.Common().IsInvoke() || staticCallee(c2) != nil {
+								return
+							}
+							if _, isB := c2.Common().Value.(*ssa.Builtin); isB {
+								return
+							}
+							if !types.Identical(c2.Common().Value.Type().Underlying(), f.Signature) || idx >= len(c2.Common().Args) {
+								return
+							}
+							sites++
+							if p.nilnessAt(c2.Block(), c2.Common().Args[idx], 0) != nnNonNil {
+								good = false
+							}
+						})
+					}
+					ok = good && sites > 0
+				}
+				r.check(ok, rule, fmt.Sprintf("%s:%s#%d", fnName(f), c.Common().Method.Name(), n), p.instrPos(c), "receiver is a record", "a method is called on a record that may be nil (crash on a text whose headline is rejected)")
 			})
 		}
 		if n == 0 {
@@ -745,6 +772,19 @@ func ruleP06PrintWidth(p *Prog, r *Report) {
 	// the value appended to the prefix list in this loop
 	var appended []ssa.Value
 	eachVInstr(f, func(in ssa.Instruction) {
+		// a list allocated up front and filled by position: prefixes[i] = prefix
+		if st2, isSt := in.(*ssa.Store); isSt {
+			if ia, isIA := st2.Addr.(*ssa.IndexAddr); isIA && isRangeIndex(ia.Index) {
+				et := st2.Val.Type().Underlying()
+				if pt, isPtr := et.(*types.Pointer); isPtr {
+					et = pt.Elem().Underlying()
+				}
+				if _, isStruct := et.(*types.Struct); isStruct {
+					appended = append(appended, strip(st2.Val))
+				}
+			}
+			return
+		}
 		c, ok := in.(*ssa.Call)
 		if !ok {
 			return
@@ -1452,6 +1492,12 @@ func ruleP14SortKey(p *Prog, r *Report) {
 	}
 	// and the list is sorted by that key, ascending
 	sl := p.method("klog/service", "totalByTag", "toSortedList")
+	if sl == nil {
+		// the listing inlined into the aggregation that returns it
+		if agg := p.fn("klog/service", "AggregateTotalsByTags"); agg != nil && len(p.sortSitesIn(agg)) > 0 {
+			sl = agg
+		}
+	}
 	if r.anchorFn(rule, sl, "service.totalByTag.toSortedList") {
 		okc := false
 		for _, site := range p.sortSitesIn(sl) {
@@ -1669,8 +1715,7 @@ func ruleP16DurationParts(p *Prog, r *Report) {
 					op = o2
 				}
 				k, isK := constInt(bo.Y)
-				ac, ai := callOf(strip(bo.X))
-				if !isK || ac == nil || ai != 0 || staticCallee(ac) == nil || staticCallee(ac).String() != "strconv.Atoi" {
+				if !isK || !isAtoiOrZero(strip(bo.X)) {
 					continue
 				}
 				// only tests that refuse the text on this edge
@@ -1927,6 +1972,13 @@ func ruleP11ArgsPure(p *Prog, r *Report) {
 	n := 0
 	for _, x := range []m{{"AtDateArgs", "AtDate"}, {"AtDateArgs", "DateFormat"}, {"AtDateAndTimeArgs", "AtTime"}, {"AtDateAndTimeArgs", "TimeFormat"}, {"AtDateAndTimeArgs", "WasAutomatic"}} {
 		f := p.method("klog/app/cli/util", x.typ, x.name)
+		if f == nil && x.name == "WasAutomatic" {
+			// the one-line test inlined into its only caller: nothing left that could assign
+			if stop, _, _ := p.mutatingCommands(); stop["Stop"] != nil && p.automaticInline(stop["Stop"]) {
+				n++
+				continue
+			}
+		}
 		if !r.anchorFn(rule, f, x.typ+"."+x.name) {
 			continue
 		}
@@ -2065,6 +2117,27 @@ func ruleP10OneError(p *Prog, r *Report) {
 			sites = append(sites, at)
 		}
 	})
+	// the append wrapped in a local function (`report(err)`): its calls are the sites
+	nDirect := len(sites)
+	for g, calls := range newSuperGraph(parse).sites {
+		wraps := false
+		eachInstr(g, func(in ssa.Instruction) {
+			if c, ok := in.(*ssa.Call); ok && acc.appendsTo(c) {
+				wraps = true
+			}
+		})
+		if !wraps || len(g.Params) != 1 {
+			continue
+		}
+		for _, c := range calls {
+			if c.Parent() == parse && inLoopBlock(c.Block()) {
+				sites = append(sites, c)
+			}
+		}
+	}
+	if nDirect < len(sites) {
+		sort.Slice(sites, func(i, j int) bool { return sites[i].Pos() < sites[j].Pos() })
+	}
 	if len(sites) < 3 {
 		r.undecided(rule, "sites", p.pos(parse.Pos()), "expected at least three error appends inside the loops of parse, found %d", len(sites))
 		return
@@ -2182,7 +2255,7 @@ func ruleP03ConcatPosition(p *Prog, r *Report) {
 		// the same number spelled directly: len(entry.Summary())
 		if lc, _ := callOf(strip(pl.leafV[k])); c == 1 && lc != nil {
 			if bi, isB := lc.Common().Value.(*ssa.Builtin); isB && bi.Name() == "len" {
-				if nm, _, _, _ := methodCall(lc.Common().Args[0]); nm == "Summary" {
+				if isSummaryValue(lc.Common().Args[0]) {
 					hasCount = true
 				}
 			}
@@ -2214,7 +2287,7 @@ func ruleP03EntryLine(p *Prog, r *Report) {
 			for _, side := range []ssa.Value{bo.X, bo.Y} {
 				if c, _ := callOf(strip(side)); c != nil {
 					if b, isB := c.Common().Value.(*ssa.Builtin); isB && b.Name() == "len" {
-						if n, _, _, _ := methodCall(c.Common().Args[0]); n == "Summary" {
+						if isSummaryValue(c.Common().Args[0]) {
 							if good, _ := onlyLoopGuards(bo.Block()); good {
 								okSum = true
 							}
@@ -3785,4 +3858,57 @@ func cursorOrderViolation(v ssa.Value) (early, late ssa.Instruction) {
 		}
 	}
 	return nil, nil
+}
+
+// paramIndex is the position of par among f's parameters (-1 if it is not one of them).
+func paramIndex(f *ssa.Function, par *ssa.Parameter) int {
+	for i, q := range f.Params {
+		if q == par {
+			return i
+		}
+	}
+	return -1
+}
+
+// isSummaryValue: v is x.Summary(), or the same lines through the summary's Lines() accessor or a
+// conversion.
+func isSummaryValue(v ssa.Value) bool {
+	v = strip(v)
+	for i := 0; i < 3; i++ {
+		n, recv, _, _ := methodCall(v)
+		if n == "Summary" {
+			return true
+		}
+		if n == "Lines" && recv != nil && strings.HasSuffix(typeNameOf(recv.Type()), "Summary") {
+			v = strip(recv)
+			continue
+		}
+		if cv, ok := v.(*ssa.ChangeType); ok {
+			v = strip(cv.X)
+			continue
+		}
+		return false
+	}
+	return false
+}
+
+// isAtoiOrZero: v is the number strconv.Atoi read, or that number with a default of zero for an
+// absent part (a phi of the constant 0 and the number).
+func isAtoiOrZero(v ssa.Value) bool {
+	if ph, ok := v.(*ssa.Phi); ok {
+		n := 0
+		for _, e := range ph.Edges {
+			if k, isK := constInt(e); isK && k == 0 {
+				continue
+			}
+			ac, ai := callOf(strip(e))
+			if ac == nil || ai != 0 || staticCallee(ac) == nil || staticCallee(ac).String() != "strconv.Atoi" {
+				return false
+			}
+			n++
+		}
+		return n > 0
+	}
+	ac, ai := callOf(v)
+	return ac != nil && ai == 0 && staticCallee(ac) != nil && staticCallee(ac).String() == "strconv.Atoi"
 }
